@@ -28,7 +28,7 @@ func (c19) Cases(tier string) int {
 }
 
 func (c19) Rule() string {
-	return "L2.execute-tail: 4 generated (executor result, scrubber outcome, middleware list) cases per case through the real Gateway.Execute (canned executor, recording middlewares) and Mw.execute: which middlewares ran, whether data is returned, the error messages in order; L2.new-options: 3 random lists of 1-8 options per case (planners, priority lists, queryer factories, middleware lists, others; all recording what they are handed) through gateway.New and one request, against the Lean model Nw.build (installed planner, what it was told, response and request middleware order); then 0-4 recording response middlewares (each adds a key to the response; optionally one of them fails) interleaved at registration with 0-3 recording request middlewares, handed to gateway.New in one WithMiddlewares option or cut into two or three, x fault patterns {none, a failing dependent call, a failing root call} x queries with joins (so that injected ids exist), a fifth of the cases over a single service with a query through the gateway's own node field; services are wrapped in a queryer implementing QueryerWithMiddlewares that applies the middlewares it is handed to a request object before every call; checked: the response-middleware log is the registration-order prefix up to and including the first failing one, on success and on executor failure alike; every response middleware sees a response already free of injected ids (key sets equal the monolith's); the data returned carries every key the middlewares added; a middleware error aborts the request: no data, and the error returned is the middleware's (after the execution's own errors when it had reported any); every outbound call had every request middleware applied exactly once, in order; non-trivial = at least 1 response middleware and 2 service calls; distinct = distinct configuration"
+	return "L2.execute-tail: 4 generated (executor result, scrubber outcome, middleware list) cases per case through the real Gateway.Execute (canned executor, recording middlewares) and Mw.execute: which middlewares ran, whether data is returned, the error messages in order; L2.new-options: 3 random lists of 1-8 options per case (planners, priority lists, queryer factories, middleware lists, others; all recording what they are handed) through gateway.New and one request, against the Lean model Nw.build (installed planner, what it was told, response and request middleware order); then 0-4 recording response middlewares (each adds a key to the response; optionally one of them fails) interleaved at registration with 0-3 recording request middlewares, handed to gateway.New in one WithMiddlewares option or cut into two or three, x fault patterns {none, a failing dependent call, a failing root call} x queries with joins (so that injected ids exist), a fifth of the cases over a single service with a query through the gateway's own node field; services are wrapped in a queryer implementing QueryerWithMiddlewares that applies the middlewares it is handed to a request object before every call; checked: the response-middleware log is the registration-order prefix up to and including the first failing one, on success and on executor failure alike; every response middleware sees a response already free of injected ids (key sets equal the monolith's); the data returned carries every key the middlewares added; a middleware error aborts the request: no data, and the error returned is the middleware's (after the execution's own errors when it had reported any); every outbound call had every request middleware applied exactly once, in order; non-trivial = at least 1 response middleware and 2 service calls; distinct = distinct configuration; a third of the gateways cache their plans and the observed request is the second use of its plan; every third case a net-twin case with 0-3 request middlewares on real *http.Request values (every request that arrives carries every middleware's mark once, in order)"
 }
 
 // mwQueryer wraps a Service and implements graphql.QueryerWithMiddlewares.
